@@ -23,6 +23,11 @@ FamilyProgs == <<
   << StartS("V", <<>>), AsS("m"), Mov("outE", <<>>), RenderMark >>,
   << StartS("E", <<>>), AsS("m"), Mov("out", <<>>), Mov("outE", <<>>), RenderMark >>,
   << StartS("V", <<>>), AsS("m"), Mov("out", <<>>), DistS(<<RMGid>>, {"m"}), St("count") >>,
+  \* a mark set again after the split, and the mark of the stored job selected after the split
+  << StartS("E", <<>>), AsS("m"), Mov("out", <<>>), AsS("m"), SelS(<<"m">>) >>,
+  << StartS("E", <<>>), AsS("m"), SelS(<<"m">>), Mov("out", <<>>) >>,
+  << StartS("V", <<>>), AsS("m"), Mov("outE", <<>>), AsS("m"), SelS(<<"m">>) >>,
+  << StartS("V", <<>>), AsS("m"), SelS(<<"m">>), Mov("outE", <<>>) >>,
   \* selections of vertices and edges
   << StartS("V", <<>>), AsS("m"), Mov("outE", <<>>), AsS("m2"), Mov("out", <<>>), SelS(<<"m", "m2">>), LimS(1) >>,
   << StartS("E", <<>>), AsS("m2"), Mov("both", <<>>), AsS("m"), SelS(<<"m", "m2">>) >>,
